@@ -45,7 +45,7 @@ import (
 //	nil / str(Str) / int(Str) / bool(Str) / const(Name)
 //	ifnn    X != nil ? Y : Z     value of a variable assigned under `if X != nil`
 //	deref X / addr X
-//	and X Y / eq X Y
+//	and X Y / eq X Y / neq X Y
 //	rawopts                      the caller's own variadic option list (local path: `opts...`)
 //	optlist Args                 a rebuilt option list; every arg is `opt Name(Args)`
 type Expr struct {
@@ -401,6 +401,8 @@ func (e *env) eval(x ast.Expr) *Expr {
 			return &Expr{K: "and", X: e.eval(x.X), Y: e.eval(x.Y)}
 		case token.EQL:
 			return &Expr{K: "eq", X: e.eval(x.X), Y: e.eval(x.Y)}
+		case token.NEQ:
+			return &Expr{K: "neq", X: e.eval(x.X), Y: e.eval(x.Y)}
 		}
 		die(x.Pos(), "unsupported binary operator %s", x.Op)
 	case *ast.CompositeLit:
